@@ -14,7 +14,8 @@ open Poetry
 /-- the alternatives one `(op, value)` pair contributes -/
 def PairAlts (op v : String) (alts : List String) : Prop :=
   (RelOp op ∧ ∃ item, normalizePyPair op v = .ok item ∧ alts = [item]) ∨
-  (op = "in" ∧ alts = versionListItems true v)
+  (op = "in" ∧ alts = versionListItems true v) ∨
+  (op = "not in" ∧ alts = [joinWith ", " (versionListItems false v)])
 
 /-- all ways of choosing one alternative per pair, in order -/
 def prodAlts : List (List String) → List (List String)
@@ -30,7 +31,7 @@ theorem normConj_alts (pas : List ((String × String) × List String))
   | cons x xs ih =>
     obtain ⟨⟨op, v⟩, a⟩ := x
     have ih' := fun alts => ih (fun y hy => h y (by simp [hy])) alts
-    rcases h ((op, v), a) (by simp) with ⟨hop, item, hitem, ha⟩ | ⟨hop, ha⟩
+    rcases h ((op, v), a) (by simp) with ⟨hop, item, hitem, ha⟩ | ⟨hop, ha⟩ | ⟨hop, ha⟩
     · simp only at hop hitem ha
       subst ha
       have hl := relOp_not_list hop
@@ -42,5 +43,11 @@ theorem normConj_alts (pas : List ((String × String) × List String))
       simp only [List.map_cons, normalizePyConj, if_true, beq_self_eq_true]
       rw [ih']
       simp [prodAlts, List.flatMap_assoc, List.flatMap_map, List.map_flatMap, List.map_map, Function.comp_def]
+    · simp only at hop ha
+      subst hop; subst ha
+      have h1 : ("not in" == "in") = false := by decide
+      simp only [List.map_cons, normalizePyConj, h1, Bool.false_eq_true, if_false, if_true, beq_self_eq_true]
+      rw [ih']
+      simp [prodAlts, List.flatMap_map, List.map_map, Function.comp_def]
 
 end Poetry.Marker
